@@ -56,11 +56,14 @@ class _Built:
         parts, nch, dtype = list(layout['parts']), layout['nch'], layout['dtype']
         assert parts and all(p >= 1 for p in parts) and nch >= 1
         self.sr = float(layout.get('sr', 2.5))
-        self.A = make_array(sum(parts), nch, dtype)
+        raw = make_array(sum(parts), nch, dtype)          # what is written to the files, part by part
+        bnd = np.cumsum([0] + parts)
+        # the oracle, literally from the statement: "the single array obtained by concatenating the files in order"
+        self.A = np.concatenate([raw[bnd[i]:bnd[i + 1]] for i in range(len(parts))], axis=0)
         self.dir = tempfile.mkdtemp(prefix='pvc_c01_')
         self._mts = None
         backend = layout['backend']
-        A = self.A
+        A = raw
         conv = (lambda p: str(p)) if layout.get('path', 'path') == 'str' else (lambda p: Path(p))
         if backend == 'array':
             assert len(parts) == 1
@@ -226,7 +229,8 @@ def case_attributes(inp):
     yield 'shape-of-concatenated-array', tuple(int(x) for x in r.shape) == (n, nch), r.shape
     yield 'n_samples-of-concatenated-array', int(r.n_samples) == n and r.n_samples == n, r.n_samples
     yield 'n_channels-of-concatenated-array', r.n_channels == nch, r.n_channels
-    yield 'dtype-of-concatenated-array', r.dtype is not None and np.dtype(r.dtype) == A.dtype, str(r.dtype)
+    # np.concatenate returns native byte order; a reader of big-endian files may name the stored order (same type)
+    yield 'dtype-of-concatenated-array', r.dtype is not None and np.dtype(r.dtype).newbyteorder('=') == A.dtype.newbyteorder('='), str(r.dtype)
     yield 'duration-is-n_samples-over-sample_rate', r.duration == n / b.sr, (r.duration, n / b.sr)
 
 
@@ -283,7 +287,7 @@ def all_cols(nch, with_arrays=False):
 
 def layouts(tier):
     quick = tier == 'quick'
-    N = 5 if quick else 6
+    N = 6
     out = []
     flat_cfg_quick = [('int16', 0, 3), ('float32', 3, 2), ('float64', 8, 1), ('uint8', 5, 3)]
     flat_cfg_thorough = [(dt, off, nch) for dt in ('int16', 'float32', 'float64') for off in (0, 3, 8) for nch in (1, 3)] + \
@@ -315,20 +319,23 @@ def layouts(tier):
 
 def enumerate_cases(ctx):
     quick = ctx.tier == 'quick'
-    N = 5 if quick else 6
+    N = 6
     ctx.scope('layouts: every composition of n <= %d into <= 3 parts (flat: header offsets/dtypes/channel counts %s; '
               'extensions .bin/.dat/.raw/.mda, str and Path, bare path and list), single-file npy / in-memory array / '
               'cbin (chunk lengths 1..4 and > n, opened by path and as mtscomp.Reader); attributes checked on each'
               % (N, 'rotated pairwise in quick' if quick else '{int16,float32,float64} x {0,3,8} x {1,3} channels + uint8/int32/>i2/uint16/int64/<f8'))
     ctx.scope('index expressions per layout (exhaustive): every int in [-n,n)%s; every slice with start/stop in [-n,n] or None, '
-              'step None or 1, selecting >= 1 row; every strictly increasing index list AND int64 array of length <= %s '
+              'step None or 1 (both on int16 layouts in thorough, else one of the two by rotation), selecting >= 1 row; every strictly increasing index list AND int64 array of length <= %s '
               '(not on cbin); x column selectors {none, slice, reversed slice, increasing list, permutation%s}'
-              % ('' if quick else ' (also numpy integer scalars)', '3' if quick else 'n', '' if quick else ', ndarray permutation, negative-bound slices'))
+              % ('' if quick else ' (also numpy integer scalars on int16 layouts)', '3' if quick else 'n', '' if quick else ', ndarray permutation; on int16 layouts also negative-bound slices'))
     for li, lay in enumerate(layouts(ctx.tier)):
         n, nch, backend = sum(lay['parts']), lay['nch'], lay['backend']
         ctx.run('attributes', {'layout': lay})
-        rows = all_rows(n, backend, 3 if quick else 6, both_steps=not quick, npint=not quick)
+        rich = (not quick) and lay['dtype'] == 'int16'     # thorough: the int16 layouts get every variant
+        rows = all_rows(n, backend, 3 if quick else 6, both_steps=rich, npint=rich)
         cols = all_cols(nch, with_arrays=not quick)
+        if not quick and not rich:
+            cols = cols[:6]
         for ri, r in enumerate(rows):
             if quick and not (backend == 'flat' and len(lay['parts']) >= 2):
                 # single-part layouts in quick: every row with no selector + one rotating selector
